@@ -233,6 +233,13 @@ func (l *VegasLimit) OnSample(startTime int64, rtt int64, inFlight int, didDrop 
 		return
 	}
 
+	if didDrop && rtt <= 0 {
+		// a drop that carries no RTT (e.g. a window that held only drops) says nothing about the
+		// no-load RTT but must still lower the limit
+		l.updateEstimatedLimit(startTime, rtt, inFlight, didDrop)
+		return
+	}
+
 	if l.rttNoLoad.Get() == 0 || float64(rtt) < l.rttNoLoad.Get() {
 		l.logger.Debugf("Update RTT No Load to %d ms from %d ms", rtt/1e6, int64(l.rttNoLoad.Get())/1e6)
 		l.rttNoLoad.Add(float64(rtt))
